@@ -130,7 +130,14 @@ func (m *SetMon[T]) Check() {
 	if e := m.S.Empty(); e != (m.n() == 0) {
 		c.Fail("empty", "", "%s.Empty() = %v with %d members", m.Name, e, m.n())
 	}
-	for _, v := range m.D.Alpha {
+	alpha := m.D.Alpha
+	if len(alpha) > 200 { // big alphabets: sample
+		alpha = nil
+		for k := 0; k < 40; k++ {
+			alpha = append(alpha, m.D.Val(c.R))
+		}
+	}
+	for _, v := range alpha {
 		want := m.find(v) >= 0
 		if got := m.S.Contains(v); got != want {
 			c.Fail("contains", "single", "%s.Contains(%v) = %v, want %v; members %s", m.Name, v, got, want, short(m.Model))
@@ -142,7 +149,13 @@ func (m *SetMon[T]) Check() {
 			c.Fail("contains", "probe", "%s.Contains(%v) = %v, want %v; members %s", m.Name, v, got, want, short(m.Model))
 		}
 	}
-	c.Count("obs:Contains", len(m.D.Alpha)+2)
+	c.Count("obs:Contains", len(alpha)+2)
+	if m.n() > 500 {
+		c.Count("obs:on-set-larger-than-500", 1)
+	}
+	if m.n() > 400 && c.R.Intn(8) != 0 {
+		return // the exactly-once check is quadratic in the model's linear find
+	}
 	vs := m.S.Values()
 	m.checkValues(vs)
 	c.Count("obs:Values", 1)
@@ -231,11 +244,20 @@ func runSetHistory[T comparable](c *core.Ctx, d *Dom[T], kind int) {
 	m := newSetMon(c, d, kind, init...)
 	m.Check()
 	steps := c.R.Range(10, 150)
+	if len(d.Alpha) >= 1000 {
+		steps = 1500
+		for len(m.Model) < len(d.Alpha)/2 { // fill quickly, then mix
+			m.Add(d.Vals(c.R, 17)...)
+		}
+	}
 	for s := 0; s < steps; s++ {
 		m.Step()
 	}
 	// remove-then-re-add of every member, one by one
-	for _, v := range append([]T(nil), m.Model...) {
+	for k, v := range append([]T(nil), m.Model...) {
+		if k >= 64 {
+			break
+		}
 		m.Remove(v)
 		m.Add(v, v)
 	}
@@ -252,6 +274,10 @@ func runC04(c *core.Ctx) {
 		runSetHistory(c, StrDom(c.R.Range(3, 14)), i)
 	case i%31 == 0:
 		runSetHistory(c, IntDom(c.R.Range(30, 120)), i) // deeper trees for TreeSet's deletion cases
+	case i%311 == 7:
+		runSetHistory(c, IntDom(c.R.Range(1000, 3000)), i) // sizes that small tests never reach
+	case i%13 == 5:
+		runSetHistory(c, StructDom(c.R.Range(4, 14)), i)
 	default:
 		runSetHistory(c, IntDom(c.R.Range(2, 10)), i)
 	}
